@@ -98,18 +98,30 @@ fn special_cases(seed: u64, first: usize, n: usize) -> Vec<(String, Vec<(ItemPat
         if rng.chance(1, 3) {
             e_attrs.push(Attribute::singleton(0x6200_0000 + i * 0x100));
         }
-        let dup = rng.chance(1, 6);
+        let dup = rng.below(8);
+        let variants = match dup {
+            // an explicit value repeats an implicit one
+            0 => vec![
+                EnumStatement::field("A").with_attributes(if e_default { vec![Attribute::default()] } else { vec![] }),
+                EnumStatement::field_with_expr("B", Expr::IntLiteral(0)),
+                EnumStatement::field("C"),
+            ],
+            // an implicit run climbs back into an earlier explicit value
+            1 => vec![
+                EnumStatement::field_with_expr("A", Expr::IntLiteral(2)).with_attributes(if e_default { vec![Attribute::default()] } else { vec![] }),
+                EnumStatement::field_with_expr("B", Expr::IntLiteral(0)),
+                EnumStatement::field("C"),
+                EnumStatement::field("D"),
+            ],
+            _ => vec![
+                EnumStatement::field("A").with_attributes(if e_default { vec![Attribute::default()] } else { vec![] }),
+                EnumStatement::field_with_expr("B", Expr::IntLiteral(5)),
+                EnumStatement::field("C"),
+            ],
+        };
         m.definitions.push(ItemDefinition::new(
             (Visibility::Public, "En"),
-            EnumDefinition::new(
-                Type::ident(*rng.pick(&["u8", "u32", "i16", "u64"])),
-                [
-                    EnumStatement::field("A").with_attributes(if e_default { vec![Attribute::default()] } else { vec![] }),
-                    EnumStatement::field_with_expr("B", Expr::IntLiteral(if dup { 0 } else { 5 })),
-                    EnumStatement::field("C"),
-                ],
-                Attributes(e_attrs),
-            ),
+            EnumDefinition::new(Type::ident(*rng.pick(&["u8", "u32", "i16", "u64"])), variants, Attributes(e_attrs)),
         ));
         // outer embeds them by value / in arrays / behind pointers, with its own independent markers
         let mut outer_attrs = mark(&mut rng);
@@ -186,6 +198,24 @@ pub fn run(ctx: &mut Ctx) {
             (id, g.mods, ptrw)
         })
         .collect();
+    let nh = ctx.tier.pick(900usize, 15_000);
+    let base_n = inputs.len();
+    let hostile: Vec<(String, Vec<(ItemPath, Module)>, usize)> = (0..nh)
+        .into_par_iter()
+        .map(|i| {
+            let mut rng = Rng::derive(seed, 0x1380_0000 + i as u64);
+            let id = format!("k{}_", base_n + i);
+            let ptrw = if i % 3 == 0 { 4 } else { 8 };
+            let mut cfg = Cfg::rich(ptrw, &id);
+            cfg.max_modules = 2;
+            cfg.max_types = 3;
+            let mut g = gen_prog::generate(&mut rng, &cfg);
+            crate::hostile::perturb(&mut g.mods, &mut rng);
+            (id, g.mods, ptrw)
+        })
+        .collect();
+    ctx.count("hostile_variants", hostile.len() as u64);
+    inputs.extend(hostile);
     let sp = special_cases(seed, inputs.len(), ctx.tier.pick(300, 4000));
     ctx.count("dedicated_cases", sp.len() as u64);
     inputs.extend(sp);
